@@ -110,6 +110,7 @@ family_group!("c01", c01_gen, kfam, crate::h_board::c01_gen);
 family_group!("c01", c01_legal, kfam, crate::h_board::c01_legal);
 family_group!("c01", c01_nq, kfam, crate::h_board::c01_nq);
 family_group!("c01", c01_gen_after, kfam, crate::h_board::c01_gen_after);
+family_group!("c01", c01_inv, kfam, crate::h_board::c01_inv);
 family_group!("c02", c02_make, kfam, crate::h_board::c02_make);
 family_group!("c03", c03_undo, kfam, crate::h_board::c03_undo);
 family_group!("c03", c03_undo_hash, kfam, crate::h_board::c03_undo_hash);
